@@ -587,3 +587,68 @@ func H_C18_Deco(kind, n, which int) {
 	}
 	vrt.Reach("end")
 }
+
+// H_C09_DecoConc: two Compute calls on one decorator instance are alive at the
+// same time (as with Backtest workers sharing strategy instances): the engine's
+// certificate over memory cells must find no unordered conflicting access, and
+// each result must equal that of a fresh instance. kind: 4 Inverse, 5 NoLoss, 6 StopLoss.
+// The wrapped stub is stateless: it derives its actions from the closings it sees
+// (Buy when the close is above `hi`, Sell when below `lo`), so that the two
+// concurrent calls legitimately see different action words.
+type thresholdStrategy struct {
+	lo, hi float64
+}
+
+func (t *thresholdStrategy) Name() string { return "threshold" }
+func (t *thresholdStrategy) Compute(snapshots <-chan *asset.Snapshot) <-chan strategy.Action {
+	return helper.Map(snapshots, func(s *asset.Snapshot) strategy.Action {
+		if s.Close > t.hi {
+			return strategy.Buy
+		}
+		if s.Close < t.lo {
+			return strategy.Sell
+		}
+		return strategy.Hold
+	})
+}
+func (t *thresholdStrategy) Report(c <-chan *asset.Snapshot) *helper.Report { return nil }
+
+func H_C09_DecoConc(kind, n int) {
+	lo, hi := vrt.Float64("lo"), vrt.Float64("hi")
+	vrt.Assume(lo > 0 && lo < hi)
+	p := vrt.Float64("p")
+	vrt.Assume(p >= 0 && p < 1)
+	mk := func() strategy.Strategy {
+		in := &thresholdStrategy{lo: lo, hi: hi}
+		switch kind {
+		case 4:
+			return decorator.NewInverseStrategy(in)
+		case 5:
+			return decorator.NewNoLossStrategy(in)
+		default:
+			return decorator.NewStopLossStrategy(in, p)
+		}
+	}
+	a, b := positive("ca", n), positive("cb", n)
+	s := mk()
+	var ra, rb []strategy.Action
+	da, db := make(chan struct{}), make(chan struct{})
+	go func() { ra = Collect1(s.Compute(Src(snapshotsOf(a), 0))); close(da) }()
+	go func() { rb = Collect1(s.Compute(Src(snapshotsOf(b), 0))); close(db) }()
+	<-da
+	<-db
+	fa := Collect1(mk().Compute(Src(snapshotsOf(a), 0)))
+	fb := Collect1(mk().Compute(Src(snapshotsOf(b), 0)))
+	vrt.Assert("len", len(ra) == len(fa) && len(rb) == len(fb))
+	for i := range fa {
+		if i < len(ra) {
+			vrt.AssertAt("conc_a", i, ra[i] == fa[i])
+		}
+	}
+	for i := range fb {
+		if i < len(rb) {
+			vrt.AssertAt("conc_b", i, rb[i] == fb[i])
+		}
+	}
+	vrt.Reach("end")
+}
